@@ -110,6 +110,10 @@ func Run(c *core.Ctx) int {
 				continue
 			}
 			c.Count("recalc-after-edit:"+calcproto.Edits[e].Name, 1)
+			if calcproto.OutsideExactDomain(a) {
+				c.Count("recalc-after-edit:skipped-outside-2^52-domain", 1)
+				continue
+			}
 			if errs := calcproto.ReaddIdentities(a, sub); len(errs) > 0 {
 				c.Fail("", "after "+calcproto.Edits[e].Name+" and a second calculation the presented figures do not re-add: "+strings.Join(errs, "; "), c01.Case{Doc: d})
 				break
